@@ -423,15 +423,17 @@ impl VersionManager {
 
             let current_min = self.min_version.load(Ordering::Acquire);
             let version = self.current_version.fetch_add(1, Ordering::AcqRel) + 1;
+            // Count the token before the mutex is released: a concurrent release must not
+            // see "no active tokens" and advance min_version past this token's version
+            self.active_readers.fetch_add(1, Ordering::AcqRel);
 
             (version, current_min)
         } else {
             // Single-threaded modes don't need version tracking
+            self.active_readers.fetch_add(1, Ordering::Relaxed);
             (1, 1)
         };
 
-        // Increment active reader count
-        self.active_readers.fetch_add(1, Ordering::Relaxed);
 
         // Update statistics
         if let Ok(mut stats) = self.stats.lock() {
@@ -465,32 +467,33 @@ impl VersionManager {
 
         let start_time = Instant::now();
 
-        // For OneWriteMultiRead, ensure no other writers are active
-        if self.concurrency_level == ConcurrencyLevel::OneWriteMultiRead {
-            let current_writers = self.active_writers.load(Ordering::Acquire);
-            if current_writers > 0 {
-                return Err(ZiporaError::resource_busy(
-                    "Another writer is already active in OneWriteMultiRead mode",
-                ));
-            }
-        }
-
         // Acquire version under lock for synchronized levels
         let (version, min_version) = if self.concurrency_level.requires_synchronization() {
             let _lock = self.token_chain_mutex.lock().map_err(|_| {
                 ZiporaError::system_error("Failed to acquire token chain mutex for writer")
             })?;
 
+            // For OneWriteMultiRead, ensure no other writers are active. The check and the
+            // increment below happen under the same mutex, so two writers cannot both pass.
+            if self.concurrency_level == ConcurrencyLevel::OneWriteMultiRead
+                && self.active_writers.load(Ordering::Acquire) > 0
+            {
+                return Err(ZiporaError::resource_busy(
+                    "Another writer is already active in OneWriteMultiRead mode",
+                ));
+            }
+
             let current_min = self.min_version.load(Ordering::Acquire);
             let version = self.current_version.fetch_add(1, Ordering::AcqRel) + 1;
+            // Count the token before the mutex is released (see acquire_reader_token)
+            self.active_writers.fetch_add(1, Ordering::AcqRel);
 
             (version, current_min)
         } else {
+            self.active_writers.fetch_add(1, Ordering::Relaxed);
             (1, 1)
         };
 
-        // Increment active writer count
-        self.active_writers.fetch_add(1, Ordering::Relaxed);
 
         // Update statistics
         if let Ok(mut stats) = self.stats.lock() {
@@ -545,8 +548,14 @@ impl VersionManager {
     /// This is a simplified version - in a full implementation, this would
     /// track individual token versions in a linked list.
     fn try_advance_min_version(&self) {
-        if self.active_readers.load(Ordering::Relaxed) == 0
-            && self.active_writers.load(Ordering::Relaxed) == 0
+        // Token acquisition assigns the version and counts the token under this mutex, so
+        // while it is held "no active tokens" cannot be invalidated before the store below.
+        let _lock = match self.token_chain_mutex.lock() {
+            Ok(guard) => guard,
+            Err(_) => return,
+        };
+        if self.active_readers.load(Ordering::Acquire) == 0
+            && self.active_writers.load(Ordering::Acquire) == 0
         {
             let current = self.current_version.load(Ordering::Acquire);
             self.min_version.store(current, Ordering::Release);
